@@ -269,3 +269,46 @@ def iter_fault_cases(N, M, tier):
         for kind in ('fw', 'in'):
             for k in range(0, 2 * n + 3):
                 yield dict(cls='iterfault:newr', state='none', lines=['newr %s %s 0 %s !%d' % (x, kind, vals(1, n), k), 'new %s 0' % x, 'pb %s v5' % x, 'del %s' % x], test=0, fault=('it', k))
+
+
+def narrow_cases(N, M, ms, tier):
+    """C12: an allocator with a narrow size_type: every operation at and beyond max_size() = ms (counts <= 255)"""
+    x = 'a'
+    sizes = sorted(set([0, 1, N, ms // 2, ms - 3, ms - 1, ms]))
+    for s in sizes:
+        pre = ['newr %s fw 0 %s' % (x, vals(1, s))]
+        room = ms - s
+        counts = sorted(set(c for c in [0, 1, 2, room - 1, room, room + 1, room + 5, 100, 200, 255] if 0 <= c <= 255))
+        ops = [('pb %s v50' % x, 'pb'), ('pbm %s 51' % x, 'pbm'), ('ins %s 0 v52' % x, 'ins'), ('ins %s %d v52' % (x, s), 'ins-end')]
+        for n in counts:
+            ops.append(('insn %s %d %d v54' % (x, s // 2, n), 'insn'))
+            ops.append(('insn %s %d %d v54' % (x, s, n), 'insn-end'))
+        for n in sorted(set(c for c in [0, s, ms - 1, ms, ms + 1, 100, 200, 255] if c <= 255)):
+            ops += [('rsz %s %d' % (x, n), 'rsz'), ('rszv %s %d v55' % (x, n), 'rszv'), ('rsv %s %d' % (x, n), 'rsv'), ('asn %s %d v56' % (x, n), 'asn')]
+        for n in sorted(set([1, room, room + 1, ms, ms + 1, 200, 255, 256, 300])):
+            if n <= 0:
+                continue
+            ops += [('asr %s fw %s' % (x, vals(70, n)), 'asr-fw'), ('app %s fw %s' % (x, vals(70, n)), 'app-fw'), ('app %s in %s' % (x, vals(70, n)), 'app-in'),
+                    ('insr %s %d fw %s' % (x, s // 2, vals(70, n)), 'insr-fw'), ('insr %s %d fw %s' % (x, s, vals(70, n)), 'insr-fw-end'),
+                    ('asr %s in %s' % (x, vals(70, n)), 'asr-in'), ('insr %s %d in %s' % (x, s // 2, vals(70, n)), 'insr-in'),
+                    ('insr %s %d in %s' % (x, s, vals(70, n)), 'insr-in-end')]
+        for line, cls in ops:
+            fu = ['pb %s v77' % x, 'clr %s' % x, 'del %s' % x]
+            yield dict(cls='narrow:' + cls, state='size%d' % s, lines=pre + [line] + fu, test=1)
+            if tier == 'thorough':
+                for k in (0, 1, 3):
+                    yield dict(cls='narrow:' + cls, state='size%d' % s, lines=pre + [line + ' @%d' % k] + fu, test=1, fault=(k,))
+    for n in sorted(set([0, 1, N, N + 1, ms - 1, ms, ms + 1, 100, 200, 255])):
+        for line, cls in (('newn %s %d 0' % (x, n), 'newn'), ('newv %s %d 9 0' % (x, n), 'newv')):
+            yield dict(cls='narrow:' + cls, state='none', lines=[line, 'pb %s v5' % x, 'del %s' % x], test=0)
+    for n in sorted(set([0, 1, N + 1, ms - 1, ms, ms + 1, 100, 200, 255, 256, 300])):
+        for line, cls in (('newr %s fw 0 %s' % (x, vals(1, n)), 'newr-fw'), ('newr %s in 0 %s' % (x, vals(1, n)), 'newr-in')):
+            yield dict(cls='narrow:' + cls, state='none', lines=[line, 'pb %s v5' % x, 'del %s' % x], test=0)
+    # copies / moves between containers at the limit
+    for s in (ms - 1, ms):
+        pre = ['newr c fw 0 %s' % vals(1, s)]
+        for line in ('newc a c -', 'newm a c -'):
+            yield dict(cls='narrow:' + line.split()[0], state='size%d' % s, lines=pre + [line, 'pb a v5', 'del a', 'del c'], test=1)
+        pre2 = pre + ['new a 0']
+        for line in ('asc a c', 'asm a c'):
+            yield dict(cls='narrow:' + line.split()[0], state='size%d' % s, lines=pre2 + [line, 'pb a v5', 'del a', 'del c'], test=2)
